@@ -131,13 +131,15 @@ def check_trace(files, order, mode, rc, out, err):
     viol = []
     if rc is None:
         return [("timeout", {})]
-    if rc not in (0, 1):
+    # the property says "exits non-zero exactly when some file failed": any ordinary non-zero status is a failure verdict
+    # (DESIGN 0.3 item 23); a panic (101) or a signal is a crash, not a verdict
+    if rc < 0 or rc == 101 or rc >= 126:
         return [("exit-status-%s" % rc, {"stderr": err[-400:]})]
     sections, summary = parse_output(out, err, order)
     models = {n: model_file(files[n]) for n in order}
-    want_rc = 0 if all(m["verdict"] for m in models.values()) else 1
-    if rc != want_rc:
-        viol.append(("exit-status", {"expected": want_rc, "observed": rc}))
+    want_nonzero = not all(m["verdict"] for m in models.values())
+    if (rc != 0) != want_nonzero:
+        viol.append(("exit-status", {"expected": "non-zero" if want_nonzero else 0, "observed": rc}))
     for pos, n in enumerate(order):
         m = models[n]
         # a file whose failing assertion sits in a library that an earlier file of the run imported too
@@ -285,6 +287,44 @@ def work_e2(chunk):
     return {"evals": len(chunk), "hist": hist, "viol": viol, "states": len(states), "transitions": transitions, "state_keys": list(states)}
 
 
+def work_many(chunk):
+    """chunk: list of (number of failing inputs, number of passing inputs, 'distinct' | 'repeated'): one invocation with that many
+    explicit arguments. The exit status is 8 bits wide: a status computed from a count comes out as 0 at 256."""
+    hist = {}
+    viol = []
+    for nfail, npass, how in chunk:
+        d = tempfile.mkdtemp(prefix="ucgverif-c13m-")
+        try:
+            names = []
+            if how == "distinct":
+                for i in range(nfail):
+                    names.append("f%03d_test.ucg" % i)
+                for i in range(npass):
+                    names.append("p%03d_test.ucg" % i)
+            else:
+                names = ["f000_test.ucg"] * nfail + ["p000_test.ucg"] * npass
+            for n in set(names):
+                with open(os.path.join(d, n), "w") as f:
+                    f.write(file_text("F" if n.startswith("f") else "T"))
+            rc, out, err = run_trace(d, names)
+            nlines_fail = len(re.findall(r"^File .* Fail$", out, re.M))
+            nlines_pass = len(re.findall(r"^File .* Pass$", out, re.M))
+            bad = None
+            if rc is None or rc < 0 or rc == 101 or rc >= 126:
+                bad = "many-inputs:exit-status-%s" % rc
+            elif (rc != 0) != (nfail > 0):
+                bad = "many-inputs:exit-status-%d-with-%d-failing-inputs" % (rc, nfail)
+            elif (nlines_fail, nlines_pass) != (nfail, npass):
+                bad = "many-inputs:verdict-lines"
+            k = "many-inputs:%s" % ("agrees" if bad is None else "VIOLATION")
+            hist[k] = hist.get(k, 0) + 1
+            if bad:
+                viol.append((bad, {"many": [nfail, npass, how]}, {"rc": rc, "fail_lines": nlines_fail, "pass_lines": nlines_pass, "stderr": err[-300:]}))
+        finally:
+            shutil.rmtree(d, ignore_errors=True)
+    return {"evals": len(chunk), "hist": hist, "viol": viol, "states": 0, "transitions": 0}
+
+
 def run(ctx):
     thorough = ctx.tier == "thorough"
     maxlen = 5 if thorough else 4
@@ -326,6 +366,9 @@ def run(ctx):
         absorb(part)
     for part in core.pmap(work_e2, histories, chunk=12):
         absorb(part, is_trace=False)
+    many = [(nf, np_, how) for nf in (0, 1, 2, 3, 255, 256, 257, 512) for np_ in (0, 1) for how in ("distinct", "repeated") if nf + np_ > 0]
+    for part in core.pmap(work_many, many, chunk=2):
+        absorb(part)
     ctx.sample({"file": file_text("TFE"), "alone": "ucg test x_test.ucg"})
     ctx.sample({"trace": ["fail_test.ucg", "pass_test.ucg"], "model": {"fail_test.ucg": "Fail", "pass_test.ucg": "Pass", "exit": 1}})
     ctx.sample({"e2_history": ["fail", "pass", "passfail"]})
@@ -333,7 +376,7 @@ def run(ctx):
                 "every ordered sequence of 1..%d distinct files of 7 representative files as explicit arguments and every 2- and 3-subset "
                 "through -r; each trace replayed against the real `ucg test` and compared per file (verdict line, OK/NOT OK line counts in "
                 "that file's section, RESULTS line) and on exit status. E2: every history of 1..%d builds over the 7 files in one in-process "
-                "Environment, result of the last build compared with the same build in the initial state." % (maxlen, seqlen, e2depth))
+                "Environment, result of the last build compared with the same build in the initial state. Also one invocation with 0..3, 255, 256, 257 and 512 failing inputs (distinct files and one file repeated), alone and followed by a passing one." % (maxlen, seqlen, e2depth))
     # traces executed by the two engines
     ctx.coverage_extra.update({"states": max(1, len(states)), "transitions": max(1, transitions), "traces_validated_against_impl": traces,
                                "model_files": len(files), "model_sequences": len(seqs), "e2_histories": len(histories)})
@@ -348,6 +391,9 @@ def run(ctx):
 
 def replay(case):
     tr = case["trace"]
+    if "many" in tr:
+        part = work_many([tuple(tr["many"])])
+        return not part["viol"], {"violations": part["viol"]}
     if "history" in tr:
         core._WORKER_SERVER = None
         part = work_e2([tuple(tr["history"])])
